@@ -123,16 +123,15 @@ let do_wsweep lo hi =
   for c = lo to hi do pr "%d %s\n" c (wclass_of c) done
 
 (* wclass lo hi: the same function printed as maximal runs.  The model is evaluated at both ends and
-   in the middle of every piece between two consecutive break points (every bound a / b+1 of the
-   extracted range tables, the placeholder code points, the thresholds, every code point up to
-   0x100, the encoding-length boundaries); inside a piece no table bound lies, so membership in every
-   table is constant there (C17_width_class: the model's answers ARE table membership for every
-   code point).  A piece whose three evaluations differ is evaluated code point by code point. *)
+   in the middle of every piece between two consecutive break points (the extracted class_bounds =
+   every bound a / b+1 of the four range tables, the placeholder code points, the thresholds, every
+   code point up to 0x100, the encoding-length boundaries); inside a piece no table bound lies, so
+   the model's answers are constant there (theorem C17_width_class_runs).  A piece whose three evaluations differ is evaluated code point by code point. *)
 let do_wclass lo hi =
   if lo > hi then pr "-\n" else begin
     let bp = Hashtbl.create 4096 in
     let add x = if x > lo && x <= hi then Hashtbl.replace bp x () in
-    List.iter (fun tab -> List.iter (fun (a, b) -> add (iz a); add (iz b + 1)) tab) [dwchars; zwchars; bchars; acomb_ranges];
+    List.iter (fun x -> add (iz x)) class_bounds;     (* the extracted list C17_width_class_runs speaks about *)
     List.iter (fun ((src, _), _) -> let c = int_of_n (uc_code src) in add c; add (c + 1)) placeholders;
     add (iz dw_min); add (iz zw_min);
     for c = 0 to 0x100 do add c done;
